@@ -449,6 +449,109 @@ def run_segmented(case):
     return [], info
 
 
+
+
+# ------------------------------------------------------------------------------------------------
+# sub-domain: a field two levels below a list element (chans[i].cfg.mode / it.cfg.mode) where the elements' sub-objects
+# have different layouts (a derived class adds a field whose name sorts before or after the inherited ones)
+SUBSUB_SRC = """
+@vsc.randobj
+class Cfg(object):
+    def __init__(self):
+        self.mode = vsc.rand_bit_t(3)
+        self.size = vsc.rand_bit_t(3)
+
+@vsc.randobj
+class Cfg2(Cfg):
+    def __init__(self):
+        super().__init__()
+        self.%(extra)s = vsc.rand_bit_t(3)
+
+@vsc.randobj
+class Chan(object):
+    def __init__(self, c):
+        self.cfg = vsc.rand_attr(c())
+        self.x = vsc.rand_bit_t(2)
+
+@vsc.randobj
+class Top(object):
+    def __init__(self, kinds):
+        self.lim = vsc.rand_bit_t(3)
+        self.chans = vsc.rand_list_t(Chan(Cfg))
+        for k in kinds:
+            self.chans.append(Chan(Cfg2 if k else Cfg))
+    @vsc.constraint
+    def c0(self):
+%(body)s
+"""
+SUBSUB_OPS = {"<": lambda a, b: a < b, "<=": lambda a, b: a <= b, ">": lambda a, b: a > b, ">=": lambda a, b: a >= b, "!=": lambda a, b: a != b}
+
+
+@hyp.composite
+def subsub_cases(d):
+    kinds = [d.randint(0, 1) for _ in range(d.randint(1, 4))]
+    if 1 not in kinds:
+        kinds[d.randint(0, len(kinds) - 1)] = 1
+    return {"subsub": True, "kinds": kinds, "extra": d.choice(["burst", "aa", "n", "zz", "a0"]), "form": d.choice(["idx", "it", "const"]),
+            "op": d.choice(["<", "<=", ">", ">=", "!="]), "k": d.randint(1, 6), "calls": [d.seed() for _ in range(d.randint(1, 3))]}
+
+
+def subsub_source(case):
+    if case["form"] == "idx":
+        body = ["        with vsc.foreach(self.chans, idx=True) as i:",
+                "            self.chans[i].cfg.mode == self.lim",
+                "            self.chans[i].cfg.size %s %d" % (case["op"], case["k"])]
+    elif case["form"] == "it":
+        body = ["        with vsc.foreach(self.chans) as it:",
+                "            it.cfg.mode == self.lim",
+                "            it.cfg.size %s %d" % (case["op"], case["k"])]
+    else:
+        body = []
+        for i in range(len(case["kinds"])):
+            body += ["        self.chans[%d].cfg.mode == self.lim" % i, "        self.chans[%d].cfg.size %s %d" % (i, case["op"], case["k"])]
+    return SUBSUB_SRC % {"extra": case["extra"], "body": "\n".join(body)}
+
+
+def run_subsub(case):
+    from ..core.util import import_vsc
+    import enum as _enum
+    vsc = import_vsc()
+    info = {"returned": 0}
+    if case.get("op") not in SUBSUB_OPS or case.get("form") not in ("idx", "it", "const") or not case.get("kinds"):
+        return [], info
+    src = subsub_source(case)
+    text = src + "# Top(kinds=%s); calls %s" % (case["kinds"], case["calls"])
+
+    def Vs(kind, detail, extra):
+        return {"property": PROPERTY, "kind": kind, "detail": detail, "case": case, "text": text + "\n# " + extra}
+    reset_library()
+    try:
+        ns = {"vsc": vsc, "enum": _enum}
+        exec(compile(src, "<pvs-c08-subsub>", "exec"), ns)
+        top = ns["Top"](case["kinds"])
+    except Exception as e:
+        reset_library()
+        return [Vs("library_exception", "construction: " + exc_sig(e), repr(e)[:300])], info
+    op = SUBSUB_OPS[case["op"]]
+    for seed in case["calls"]:
+        st, exc = flat.do_call(ns, top, "randomize", None, seed)
+        where = "randomize(seed=%d)" % seed
+        if st == "exc":
+            reset_library()
+            return [Vs("library_exception", "two-level path below a list element: " + exc.sig, where + " raised %r" % (exc,))], info
+        if st == "sf":
+            return [Vs("spurious_solve_failure", "two-level path below a list element", where + ": mode == lim and size %s %d are satisfiable" % (case["op"], case["k"]))], info
+        info["returned"] += 1
+        lim = int(top.lim)
+        for i, ch in enumerate(top.chans):
+            if int(ch.cfg.mode) != lim or not op(int(ch.cfg.size), case["k"]):
+                return [Vs("wrong_field_reached", "a constraint on a field two levels below a list element landed on another field of that sub-object",
+                           where + ": chans[%d].cfg (%s): mode=%d size=%d%s; lim=%d, constraint: mode == lim, size %s %d"
+                           % (i, "Cfg2" if case["kinds"][i] else "Cfg", int(ch.cfg.mode), int(ch.cfg.size),
+                              (" %s=%d" % (case["extra"], int(getattr(ch.cfg, case["extra"])))) if case["kinds"][i] else "", lim, case["op"], case["k"]))], info
+    return [], info
+
+
 def text_of(case):
     src = render.program_source(case["prog"]) + "# top object: %s()" % case["prog"]["top"]
     types, _, _ = tree.flatten(case["prog"])
@@ -491,6 +594,8 @@ def run_case(case):
         return run_nested(case)
     if case.get("segmented"):
         return run_segmented(case)
+    if case.get("subsub"):
+        return run_subsub(case)
     prog = case["prog"]
     try:
         types, stmts, ns_nodes = tree.flatten(prog)
@@ -602,6 +707,11 @@ def body(case, acc):
         for f in case["forms"]:
             acc.label("nested form " + f)
         return vios
+    if case.get("subsub"):
+        acc.case(case, bool(info.get("returned", 0) > 0 and 0 in case["kinds"] and 1 in case["kinds"]), sample=subsub_source(case))
+        acc.label("two-level path below list elements with different sub-object layouts")
+        acc.label("subsub form " + case["form"])
+        return vios
     if case.get("segmented"):
         acc.case(case, bool(info.get("returned", 0) > 0 and info.get("direct_after_parent", 0) > 0), sample=seg_source(case))
         acc.label("segmented randomization (calls on sub-objects)")
@@ -629,11 +739,12 @@ def shards(tier):
     return [{"i": i, "n": 150 if tier == "quick" else 5000} for i in range(12)] + \
         [{"kind": "subclass", "i": 0, "n": 150 if tier == "quick" else 3000}] + \
         [{"kind": "nested", "i": i, "n": 40 if tier == "quick" else 2500} for i in range(3)] + \
-        [{"kind": "segmented", "i": i, "n": 60 if tier == "quick" else 2500} for i in range(2)]
+        [{"kind": "segmented", "i": i, "n": 60 if tier == "quick" else 2500} for i in range(2)] + \
+        [{"kind": "subsub", "i": 0, "n": 80 if tier == "quick" else 2500}]
 
 
 def run_shard(spec, seed, tier, acc):
-    strat = {"subclass": subclass_cases, "nested": nested_cases, "segmented": segmented_cases}.get(spec.get("kind"), cases)()
+    strat = {"subclass": subclass_cases, "nested": nested_cases, "segmented": segmented_cases, "subsub": subsub_cases}.get(spec.get("kind"), cases)()
     hyp.drive(strat, body, seed, spec["n"], acc)
 
 
